@@ -190,6 +190,9 @@ func c03Render(events []int, names []string) (string, bool) {
 				b.WriteString(names[0] + ";\n")
 			case 10:
 				b.WriteString("(" + names[1] + ");\n")
+			case 11:
+				// a function declaration binds its name in the scope where it stands, like any declaration
+				b.WriteString(K["fun"] + " " + names[1] + "() { " + Ret(fresh()) + " }\n")
 			case 7:
 				// a for header declaring several variables with one declaration list
 				b.WriteString(K["for"] + " (" + K["var"] + " " + names[0] + " = " + fresh() + ", " + names[1] + " = " + fresh() + "; " + True() + "; ) {\n")
@@ -207,7 +210,7 @@ func c03Run(c *Ctx) {
 	// the Bangla name ends in precomposed U+09DF, which NFC rewrites: bindings
 	// are keyed by spelling, so every operation must treat it consistently
 	names := []string{"ক\u09df", "a"}
-	nEv := 4*len(names) + 11
+	nEv := 4*len(names) + 12
 	maxLen := c.N(5, 6)
 	ev := make([]int, 0, maxLen)
 	var rec func()
@@ -320,6 +323,10 @@ func c03Handwritten() []string {
 		// redeclaration in the same scope, undefined read, undefined assignment
 		Lines(Var("a", "1"), Print("a"), Var("a", "2"), Print("a")),
 		Lines(Print("1"), Print("q")), Lines(Print("1"), "q = 2;", Print("3")),
+		// a function declared in an inner scope shadows, never replaces, an outer binding of its name
+		Lines(Fun("greet", "", " "+Ret(`"outer"`)+" "), "{ "+Fun("greet", "", " "+Ret(`"inner"`)+" ")+" "+Print("greet()")+" }", Print("greet()")),
+		Lines(Var("h", "1"), Fun("f", "", " "+Fun("h", "", " "+Ret("2")+" ")+" "+Ret("h()")+" "), Print("f()"), Print("h")),
+		Lines(Fun("fmt", "v", " "+Ret(`"top:" + v`)+" "), Fun("a", "", " "+Fun("fmt", "v", " "+Ret(`"a:" + v`)+" ")+" "+Ret("fmt(1)")+" "), Print("a()"), Print("fmt(2)"), For(Var("i", "0"), "i < 2", "i = i + 1", "{ "+Fun("fmt", "v", " "+Ret(`"loop:" + v`)+" ")+" "+Print("fmt(i)")+" }"), Print("fmt(3)")),
 		// a read whose value is not used is still a read
 		Lines(Print("1"), "q;", Print("3")), Lines(Print("1"), "(q);", Print("3")), Lines("{ "+Var("t", "1")+" t; }", "t;", Print("3")),
 		Lines(Fun("g", "", " loc; "+Print(`"in g"`)+" "), Fun("f", "", " "+Var("loc", "5")+" loc; g(); "), "f();", Print("3")),
@@ -366,7 +373,7 @@ func c03Handwritten() []string {
 func init() {
 	register(&CheckDef{
 		ID:   "C03",
-		Rule: "programs: every balanced history of length <=5 (quick) / <=6 (thorough) over 19 events {declare n = fresh, declare n, assign n, read n} x 2 colliding names + {a read that is a whole statement (`n;`, `(n);`), open block, open for-header declaring the name, open for-header declaring both names in one declaration list, a declaration list binding both names, open function taking the name as parameter, close, call f}, each assigned value a unique integer; hand-written programs for every clause of the statement; seeded random larger programs (<=40 statements, depth <=3, names from a 3-name pool, closures, loops, planted faults). Each execution of the real interpreter (with scope hooks on) is compared with refborno's scope model on stdout, first diagnostic (category, name, line) and exit status, and the hook trace is checked by a model-free scope-chain invariant. Non-trivial = distinct program with >=1 shadowing declaration and >=1 read/assignment resolved at scope distance >=1 (counted by the model).",
+		Rule: "programs: every balanced history of length <=5 (quick) / <=6 (thorough) over 20 events {declare n = fresh, declare n, assign n, read n} x 2 colliding names + {a read that is a whole statement (`n;`, `(n);`), a function declaration named like one of the variables, open block, open for-header declaring the name, open for-header declaring both names in one declaration list, a declaration list binding both names, open function taking the name as parameter, close, call f}, each assigned value a unique integer; hand-written programs for every clause of the statement; seeded random larger programs (<=40 statements, depth <=3, names from a 3-name pool, closures, loops, planted faults). Each execution of the real interpreter (with scope hooks on) is compared with refborno's scope model on stdout, first diagnostic (category, name, line) and exit status, and the hook trace is checked by a model-free scope-chain invariant. Non-trivial = distinct program with >=1 shadowing declaration and >=1 read/assignment resolved at scope distance >=1 (counted by the model).",
 		Assumptions: []string{"declaring a name in a scope after a closure that mentions it was created beneath that scope is out of domain (the property's own exclusion), detected dynamically by the model", "redeclaring the function's own name or a parameter with ধরি at function-body level, and ফাংশন redeclaring an existing name in the same scope, are out of domain"},
 		Run:         c03Run,
 		Judge:       c03Judge,
@@ -450,6 +457,8 @@ func c03CertainFault(ev []int, names []string) bool {
 				if inFun == 0 && !has(names[e-4*nn-9]) {
 					return true
 				}
+			case 11:
+				stack[len(stack)-1].vars[names[1]] = true
 			}
 		}
 	}
